@@ -128,25 +128,35 @@ def sigs_of(V, c):
 
 
 @unit('C18', 'Cluster.same_start', functions=[M_ + 'Cluster.same_start', 'eqsig.fns.average.get_section_average', 'eqsig.fns.time_shift.time_indices'],
-      cases=[dict(k=k, master=m, stype=s) for k in (2, 3, 4) for m in range(k) for s in ('custom',)] + [dict(k=3, master=2, stype='acc')],
+      cases=[dict(k=k, master=m, stype=s, window='0..1') for k in (2, 3, 4) for m in range(k) for s in ('custom',)] + [dict(k=3, master=2, stype='acc', window='0..1')] +
+            [dict(k=3, master=1, stype='custom', window=w) for w in ('default', '0..0', '0.5..1.5', '1..1', '0..2')],
       modes=('bounded',), sizes=dict(n=[5]))
-def same_start(V, k, master, stype):
+def same_start(V, k, master, stype, window):
+    """section windows in time at dt = 0.5 (samples int(start/dt) .. int(end/dt) inclusive): the default (0..1 s), the one-sample window
+    0..0 ('start at the same value'), windows that do not begin at 0, a one-sample window later in the record, a longer window"""
     st = {}
+    WIN = {'default': None, '0..1': (0, 1), '0..0': (0, 0), '0.5..1.5': (Q('0.5'), Q('1.5')), '1..1': (1, 1), '0..2': (0, 2)}[window]
+    lo_t, hi_t = WIN if WIN is not None else (0, 1)
+    i_lo, i_hi = int(float(T.fr(lo_t)) / 0.5), int(float(T.fr(hi_t)) / 0.5) + 1
 
     def setup():
         CS.install_cache_summaries(V)
         n = V.size('n', 4)
         c, arrs, dt = make_cluster(V, k, n, master, stype)
         st.update(c=c, arrs=arrs, dt=dt, n=n)
-        # section [start, end] = first three samples (times 0 .. 1.0 at dt = 0.5)
-        return ((c,), dict(start=0, end=1))
+        return ((c,), dict(start=WIN[0], end=WIN[1]) if WIN is not None else {})
     for out in V.run(M_ + 'Cluster.same_start', setup):
         if not out.no_raise():
             continue
         c, arrs, n = st['c'], st['arrs'], st['n']
-        out.replay_info = dict(module='cluster', op='same_start', k=k, master=master)
+        out.replay_info = dict(module='cluster', op='same_start', k=k, master=master, window=None if WIN is None else [float(T.fr(WIN[0])), float(T.fr(WIN[1]))])
         sigs = sigs_of(V, c)
-        avg = lambda vals: T.sdiv(T.sadd(T.sadd(vals[0], vals[1]), vals[2]), 3)
+
+        def avg(vals):
+            tot = 0
+            for i in range(i_lo, i_hi):
+                tot = T.sadd(tot, vals[i])
+            return T.sdiv(tot, i_hi - i_lo)
         m_vals = sigs[master].attrs['_values']
         out.prove('master-unchanged', T.sand(*[T.seq(m_vals[i], arrs[master][i]) for i in range(n)]))
         for j in range(k):
